@@ -454,6 +454,30 @@ def contexts(ctx):
     for x in au:
         fc = cond_facts([c_ for c_ in gc_.conditions_at(gc_.nodes_of(x)) if "finalizer" in unparse(c_[1])])
         ctx.check(fc == [("finalizer is not None", True)] or fc == [("finalizer is None", False)], x, "the atexit hook is removed when there is one", "atexit.unregister is reached under %s" % fc)
+    # the executor side (joblib/executor.py): the Parallel call's context is registered with whichever manager the
+    # executor really uses (a reused executor keeps its own), and terminating the executor cleans its temporaries
+    EX = "joblib/executor.py"
+    ge = ctx.repo.func(EX, "MemmappingExecutor.get_memmapping_executor")
+    gge = cfg_of(ge)
+    rn = [x for x in calls_in(ge) if call_attr(x) == "register_new_context"]
+    ctx.check(len(rn) == 1 and unparse(rn[0].func.value) == "_executor._temp_folder_manager" and dotted(rn[0].args[0]) == "context_id", rn[0] if rn else ge,
+              "the call's context is registered with the manager of the executor actually returned (new or reused)", "get_memmapping_executor no longer registers the call's context with the executor's own manager")
+    for x in rn:
+        fc = [f_ for f_ in cond_facts(gge.conditions_at(gge.nodes_of(x))) if "context_id" in f_[0]]
+        ctx.check(fc in ([], [("context_id is not None", True)], [("context_id is None", False)]), x, "whenever a context id is given", "the context is registered under %s" % fc)
+    sm = [a for a in ast.walk(ge) if isinstance(a, ast.Assign) and unparse(a.targets[0]) == "_executor._temp_folder_manager"]
+    for a in sm:
+        fc = [f_ for f_ in cond_facts(gge.conditions_at(gge.nodes_of(a))) if "reused" in f_[0]]
+        ctx.check(fc in ([("executor_is_reused", False)], [("not executor_is_reused", True)]), a, "only a NEW executor gets the fresh manager (a reused one keeps the manager its reducers point to)",
+                  "the fresh manager is installed under %s: the reducers of a reused executor keep resolving folders through the old manager, whose contexts are no longer the registered ones" % fc)
+    te = ctx.repo.func(EX, "MemmappingExecutor.terminate")
+    gte = cfg_of(te)
+    cln = [x for x in calls_in(te) if call_attr(x) == "_clean_temporary_resources"]
+    shd = [x for x in calls_in(te) if call_name(x) == "self.shutdown"]
+    ok_ = bool(cln) and bool(shd) and gte.every_path_to(gte.nodes_of(cln[0]), gte.nodes_of_all(shd)) and gte.every_path_from([gte.entry], gte.nodes_of_all(cln), None, skip_exc=True) \
+        and dotted(kwarg(cln[0], "force")) == "kill_workers" and is_const(kwarg(cln[0], "allow_non_empty"), True)
+    ctx.check(bool(ok_), cln[0] if cln else te, "terminate() shuts the workers down, then cleans the temporaries (forcibly iff the workers were killed)",
+              "MemmappingExecutor.terminate does not clean the temporary resources after the shutdown with force=kill_workers")
     # disk.delete_folder: a folder that still holds files is removed only when the caller allows it (files of a
     # context whose arrays are still referenced stay until their own count drops)
     from .. import table
